@@ -100,6 +100,25 @@ CHECKS["C05"] = {
             "round trip assumed; big-endian id helpers assumed; FileMessageReader::read_next assumed here, proved in unit filereader under A-FULLREAD; no crash model (flush is a no-op).",
 }
 
+CHECKS["C09"] = {
+    "text": "Proof (Verus, unbounded) on the real ConfigValue / ConfigActor: after set_config the key serves md5(content) of the published content, with type/description of the "
+            "publish when given; a publish that changes the content (or replaces a tmp/missing value) stores it and appends exactly one history entry with the given id, newest last, "
+            "bounded to the last 100; a publish of identical content changes neither content nor history; every other key is untouched (whole-map frame); del_config removes the key "
+            "from store and listing index; the GET arm returns exactly the stored content/md5/type/description or not-found; listings only name stored keys and every published key is listed (wf).",
+    "note": "md5 uninterpreted; ConfigKey<->string round trip (format!/split) not under contract; TenantIndex set-view contract assumed in unit config (paging/total correctness of the "
+            "listing itself is NOT yet under contract: query_config_page is nested BTreeMap iteration, planned unit configindex); HTTP/gRPC layers not decided.",
+}
+CHECKS["C10"] = {
+    "text": "Proof (Verus, unbounded) on the real ConfigListener / ConfigActor: add gives a long-poll a fresh registration that is pending and recorded under every key it listens to, "
+            "losing nothing recorded before; notify(key) answers exactly the registrations recorded under the key; set_config (when the content changes) and del_config notify the key; "
+            "the LISTENER arm answers at once iff some held md5 is stale (absent key = md5 empty) or it does not wait, else registers — atomically in one actor step; gRPC subscriptions "
+            "survive the removal of a key. Spec-level lemmas (l_inv inductive over add/notify) give: after a change of k no pending long-poll listens to k, for every ordering.",
+    "note": "Delivery itself (oneshot send, BiStreamManage NotifyConfig through Addr) has no specified effect: 'answered' == removed from sender_map. ConfigListener::timeout (BTreeMap "
+            "iteration with take(10000)) is verified for safety only, the 'no later than its timeout' bound and the 500 ms timer are not decided. Subscriber map mirroring is not under contract; "
+            "remove_client_subscribe/remove_config_key are assumed (HashSet by-value iteration).",
+}
+CHECKS["C19"]["text"] = CHECKS["C19"]["text"] + " In the config store (unit config): ConfigActor::set_config adopts the replicated history-id high-water mark on every apply of an entry (also when the content is identical), and each history entry is stamped with the id carried by the entry."
+
 NOT_APPLICABLE = {
     "C01": "equation between the states of seven actors across stop/restart; effects travel through Addr::send futures — no function-shaped contract can state it (DESIGN §6)",
     "C04": "crash points between file writes of several actors need a crash-Hoare logic over an external resource; neither Verus nor Kani models intermediate disk states (DESIGN §6)",
@@ -109,7 +128,5 @@ NOT_APPLICABLE = {
     "C15": "convergence after quiescence across nodes: liveness over message schedules and node failures (DESIGN §6)",
     "C02": "not yet built in this revision (planned: U-loginner)",
     "C03": "not yet built in this revision (planned: U-loginner)",
-    "C09": "not yet built in this revision (planned: U-config*)",
-    "C10": "not yet built in this revision (planned: U-configlistener/U-subscriber)",
     "C14": "not yet built in this revision (planned: U-processrange)",
 }
